@@ -119,6 +119,68 @@ pub fn run_case(exe: &Path, property: &str, case: &Json, stack_bytes: usize, tim
     }
 }
 
+pub struct CmdResult {
+    pub code: Option<i32>,
+    pub signal: Option<i32>,
+    pub timed_out: bool,
+    pub stdout: String,
+    pub stderr: String,
+    pub wall_s: f64,
+}
+
+/// Runs an external command (cargo, a sanitizer build of the harness) under a watchdog.
+pub fn run_cmd(program: &str, args: &[String], envs: &[(String, String)], cwd: Option<&Path>, timeout: Duration) -> Result<CmdResult, String> {
+    let mut cmd = Command::new(program);
+    cmd.args(args).stdin(Stdio::null()).stdout(Stdio::piped()).stderr(Stdio::piped());
+    for (k, v) in envs {
+        cmd.env(k, v);
+    }
+    cmd.env_remove("VERIF_JOURNAL");
+    if let Some(d) = cwd {
+        cmd.current_dir(d);
+    }
+    let mut child = cmd.spawn().map_err(|e| format!("{}: {}", program, e))?;
+    let mut out_pipe = child.stdout.take().unwrap();
+    let mut err_pipe = child.stderr.take().unwrap();
+    let out_t = std::thread::spawn(move || {
+        let mut s = Vec::new();
+        let _ = out_pipe.read_to_end(&mut s);
+        String::from_utf8_lossy(&s).to_string()
+    });
+    let err_t = std::thread::spawn(move || {
+        let mut s = Vec::new();
+        let _ = err_pipe.read_to_end(&mut s);
+        String::from_utf8_lossy(&s).to_string()
+    });
+    let start = Instant::now();
+    let mut timed_out = false;
+    let status = loop {
+        match child.try_wait() {
+            Ok(Some(st)) => break Some(st),
+            Ok(None) => {
+                if start.elapsed() > timeout {
+                    let _ = child.kill();
+                    let _ = child.wait();
+                    timed_out = true;
+                    break None;
+                }
+                std::thread::sleep(Duration::from_millis(50));
+            }
+            Err(_) => break None,
+        }
+    };
+    let stdout = out_t.join().unwrap_or_default();
+    let stderr = err_t.join().unwrap_or_default();
+    Ok(CmdResult {
+        code: status.and_then(|s| s.code()),
+        signal: status.and_then(|s| s.signal()),
+        timed_out,
+        stdout,
+        stderr,
+        wall_s: start.elapsed().as_secs_f64(),
+    })
+}
+
 /// Serialises what a child observed.
 pub fn report_to_json(r: &Report) -> Json {
     Json::obj()
